@@ -240,6 +240,34 @@ def run(ctx):
                           f.where(b, i), "%s - %s" % (fmt(A)[:80], fmt(B)[:80]))
     ctx.note("R17.7: %d unsigned subtraction(s) in %d functions reachable from background threads" % (n_usub, len(bg)))
 
+    # ---- R17.9 a background worker ends only when told to: a loop that receives with a deadline or without blocking
+    # (`recv_timeout`, `recv_deadline`, `try_recv`) gets `Err` for "nothing yet" as well as for "disconnected"; leaving the
+    # thread on an `Err` whose reason was not examined ends the worker after the first quiet period
+    from sym import ipaths as ipaths_
+    spawn_ = F.spawn_closures()
+    n_nb = 0
+    NONBLOCK = ("Receiver::<T>::recv_timeout", "Receiver::<T>::recv_deadline", "Receiver::<T>::try_recv")
+    for cdef in sorted(spawn_):
+        c = F.fn(cdef)
+        if c is None:
+            continue
+        rets = set(c.return_blocks())
+        for b, t in c.calls():
+            if not t["callee"].endswith(NONBLOCK) or b not in c.reach_after(b):
+                continue            # only receives of the thread's loop
+            n_nb += 1
+            bad = []
+            for p in ipaths_(F, c, stop=lambda n_: False, depth=1, start=b, ends=rets | {b}):
+                re_ = [e for e in p.events if e.fn is c and e.bb == b]
+                if not re_ or p.variant_of(re_[0].res) != ("Err",) or not (p.blocks and p.blocks[-1] in rets):
+                    continue
+                why_ = ("field", ("variant", re_[0].res, "Err"), "0")
+                if not any(a[0] == "enum" and strip_site(a[1]) == strip_site(why_) for a in p.atoms):
+                    bad.append("the thread ends on an Err of %s whose reason (nothing yet / disconnected) was not examined (%s)" % (t["callee"].split("::")[-1], p.show()))
+            ctx.check(not bad, "R17.9", "%s|worker-ends-only-on-disconnect" % cdef,
+                      "a background loop that receives without blocking forever leaves only when the channel is disconnected (or on its shutdown signal), not when nothing arrived in time", c.where(b), "; ".join(sorted(set(bad))[:2]))
+    ctx.note("R17.9: %d non-blocking / timed receive(s) in background loops" % n_nb)
+
     # ---- R17.8 (= C08 R08.7) the upsert's "does the key exist" agrees with what reads report -------------------------
     # put_or_update asserts that a request without a value only ever *updates*: whether it updates is decided by the
     # in-place update's liveness test.  If that test disagrees with the read path (a key `get` still returns is treated as
